@@ -105,11 +105,11 @@ def library(w, contigs, method, n_target=None, defects=True, cells=None, dense=F
     return frags
 
 
-def many_small_contigs(w, method, n=None):
+def many_small_contigs(w, method, n=None, length=(90000, 99900)):
     """scaffold-rich assembly: 55..80 contigs just under the small-contig threshold, one or two fragments each
     (their total length exceeds the 5 Mb job size used for chic / nla)"""
     n = n or w.randint(55, 80)
-    genome = [[f'scaf{i}', w.randint(90000, 99900)] for i in range(n)]
+    genome = [[f'scaf{i}', w.randint(*length)] for i in range(n)]
     kind = {'nla': 'nla', 'chic': 'chic', 'qflag': 'plain'}[method]
     frags = []
     for ci in range(n):
